@@ -309,3 +309,6 @@ func verifDeterministic(label string, value string) { verifObserve("det:"+label,
 
 // verifFormatCalls: how many times go/format.Source has been applied so far (symbolic engine only; -1 natively).
 func verifFormatCalls() int { return -1 }
+
+// verifNote: informational remark recorded by the engine when the condition can hold (never a violation).
+func verifNote(c bool, text string) {}
